@@ -1,7 +1,7 @@
 """Source of MANIFEST.json (bin/mkmanifest). A property appears as a check only if checks/<id>.py exists."""
 
 # checks registered in MANIFEST.json (a check file may exist before it is ready)
-READY = ['C04']
+READY = ['C04', 'C05', 'C06', 'C07']
 
 HOOK_COMMITS = ['6abf118d3b', '23b4e66deb', '9ed5be8760']
 
